@@ -160,8 +160,7 @@ Definition apply_random_mutations (ms : mspace) (n : Z) (s : dna) (r : rstate) :
 
 (* all_variants: per multichoice, variants sorted by (|rank - rank_current|, variant) where rank is
    the position in sorted(variants); itertools.product order (first slot slowest).
-   None = the Python code would raise (choices_span is None -> TypeError on unpacking;
-   current sub-sequence not among the variants -> KeyError). *)
+   None = the Python code would raise (current sub-sequence not among the variants -> KeyError). *)
 Fixpoint index_of (v : dna) (l : list dna) (i : Z) : option Z :=
   match l with [] => None | w :: l' => if seq_eqb v w then Some i else index_of v l' (i + 1) end.
 Definition key_ltb (k1 k2 : Z * dna) : bool :=
@@ -194,7 +193,7 @@ Fixpoint slots_of (mc : list choice) (s : dna) : option (list (choice * list dna
   end.
 Definition all_variants (ms : mspace) (s : dna) : option (list dna) :=
   match choices_span ms with
-  | None => None
+  | None => Some [s]       (* frozen space: the only variant is the sequence itself *)
   | Some _ => option_map (fun slots => product_apply slots s) (slots_of (multichoices ms) s)
   end.
 
@@ -291,7 +290,7 @@ Fixpoint distinct_somes (l : list (option choice)) : list choice :=
   match l with
   | [] => []
   | None :: l' => distinct_somes l'
-  | Some c :: l' => if existsb (choice_eqb c) (distinct_somes l') then distinct_somes l' else c :: distinct_somes l'
+  | Some c :: l' => let r := distinct_somes l' in if existsb (choice_eqb c) r then r else c :: r
   end.
 
 Definition place_choice (idx : list (option choice)) (ch : choice) : list (option choice) :=
